@@ -267,3 +267,83 @@ Qed.
 Lemma doh_current_same_schedules :
   doh_verdict false 0 = Some 0 /\ doh_verdict false 1 = Some 0 /\ doh_verdict false 2 = Some 0 /\ doh_verdict false 3 = Some 0.
 Proof. vm_compute. auto. Qed.
+
+(* ---------------- round 4: fault paths and pooled objects ---------------- *)
+(* the code as it is: every reachable state of each protocol is violation-free (certified check, all interleavings with
+   the recycling environment) *)
+Lemma own4_sread_safe : safe_proto (Pown4_sread false).       Proof. apply certified. vm_compute. reflexivity. Qed.
+Lemma own4_fallback_safe : safe_proto (Pown4_fallback 0).     Proof. apply certified. vm_compute. reflexivity. Qed.
+Lemma own4_reuse_reply_safe : safe_proto (Pown4_reuse_reply false). Proof. apply certified. vm_compute. reflexivity. Qed.
+Lemma own4_emptyresp_safe : safe_proto (Pown4_emptyresp false). Proof. apply certified. vm_compute. reflexivity. Qed.
+Lemma own4_prefetch_safe : safe_proto (Pown4_prefetch false).   Proof. apply certified. vm_compute. reflexivity. Qed.
+
+Definition protocols4 : list proto :=
+  [Pown4_sread false; Pown4_fallback 0; Pown4_reuse_reply false; Pown4_emptyresp false; Pown4_prefetch false].
+
+Lemma protocols4_safe P s : In P protocols4 -> reach P s -> viol s = 0.
+Proof.
+  unfold protocols4. cbn. intros H.
+  repeat (destruct H as [<-|H]; [first [apply own4_sread_safe|apply own4_fallback_safe|apply own4_reuse_reply_safe
+                                        |apply own4_emptyresp_safe|apply own4_prefetch_safe]|]).
+  contradiction.
+Qed.
+
+(* a named schedule that runs to a violation is a reachable violating state *)
+Lemma own4_witness p k c :
+  own4_verdict p k = Some c ->
+  exists s, own_run (own4_proto p) (own_init (own4_proto p)) (own4_sched p k) = Some s /\ reach (own4_proto p) s /\ viol s = c.
+Proof.
+  unfold own4_verdict. intros H.
+  destruct (own_run (own4_proto p) (own_init (own4_proto p)) (own4_sched p k)) as [s|] eqn:E; [|discriminate].
+  exists s. split; [reflexivity|]. split; [eapply run_reach; eauto|]. now inversion H.
+Qed.
+
+(* (6) the body buffer released in the read-error branch AND by the defer: a double release as soon as the body read
+   fails; when another request has taken the buffer in between, its buffer is pulled from under it *)
+Lemma own4_sread_double_release_refuted :
+  (exists s, own_run (Pown4_sread true) (own_init (Pown4_sread true)) (own4_sched 1 2) = Some s /\ reach (Pown4_sread true) s /\ viol s = 3) /\
+  (exists s, own_run (Pown4_sread true) (own_init (Pown4_sread true)) (own4_sched 1 3) = Some s /\ reach (Pown4_sread true) s /\ viol s = 3).
+Proof. split; [apply (own4_witness 1 2)|apply (own4_witness 1 3)]; vm_compute; reflexivity. Qed.
+
+(* (7) both "keep the truncated answer when the TCP leg fails" variants hand the caller a released message: it is read
+   after its release (1), or — when another request took it meanwhile — while it belongs to that request (2) *)
+Lemma own4_fallback_returns_released_refuted :
+  (exists s, own_run (Pown4_fallback 1) (own_init (Pown4_fallback 1)) (own4_sched 3 2) = Some s /\ reach (Pown4_fallback 1) s /\ viol s = 1) /\
+  (exists s, own_run (Pown4_fallback 1) (own_init (Pown4_fallback 1)) (own4_sched 3 4) = Some s /\ reach (Pown4_fallback 1) s /\ viol s = 2) /\
+  (exists s, own_run (Pown4_fallback 2) (own_init (Pown4_fallback 2)) (own4_sched 4 2) = Some s /\ reach (Pown4_fallback 2) s /\ viol s = 1) /\
+  (exists s, own_run (Pown4_fallback 2) (own_init (Pown4_fallback 2)) (own4_sched 4 4) = Some s /\ reach (Pown4_fallback 2) s /\ viol s = 2).
+Proof.
+  repeat split; [apply (own4_witness 3 2)|apply (own4_witness 3 4)|apply (own4_witness 4 2)|apply (own4_witness 4 4)];
+    vm_compute; reflexivity.
+Qed.
+
+(* (8) "the context is done" does not mean "the caller left without the reply": reply received, then the context ends,
+   then the worker's epilogue releases a message the caller owns *)
+Lemma own4_reuse_reply_release_refuted :
+  exists s, own_run (Pown4_reuse_reply true) (own_init (Pown4_reuse_reply true)) (own4_sched 6 1) = Some s /\
+            reach (Pown4_reuse_reply true) s /\ viol s = 3.
+Proof. apply (own4_witness 6 1). vm_compute. reflexivity. Qed.
+
+(* (9) one Question referenced by the query and by the reply is released with both *)
+Lemma own4_emptyresp_shared_question_refuted :
+  exists s, own_run (Pown4_emptyresp true) (own_init (Pown4_emptyresp true)) (own4_sched 8 0) = Some s /\
+            reach (Pown4_emptyresp true) s /\ viol s = 3.
+Proof. apply (own4_witness 8 0). vm_compute. reflexivity. Qed.
+
+(* (10) a prefetch goroutine that copies the handler's question itself reads it after the handler's deferred release
+   (1), or — another request took the recycled Question — reads that request's question (2) *)
+Lemma own4_prefetch_lazy_copy_refuted :
+  (exists s, own_run (Pown4_prefetch true) (own_init (Pown4_prefetch true)) (own4_sched 10 1) = Some s /\
+             reach (Pown4_prefetch true) s /\ viol s = 1) /\
+  (exists s, own_run (Pown4_prefetch true) (own_init (Pown4_prefetch true)) (own4_sched 10 2) = Some s /\
+             reach (Pown4_prefetch true) s /\ viol s = 2).
+Proof. split; [apply (own4_witness 10 1)|apply (own4_witness 10 2)]; vm_compute; reflexivity. Qed.
+
+(* the same named schedules on the code as it is *)
+Lemma own4_current_same_schedules :
+  map (own4_verdict 0) [0;1;2;3] = [Some 0; Some 0; Some 0; Some 0] /\
+  map (own4_verdict 2) [0;1;2;3;4] = [Some 0; Some 0; Some 0; Some 0; Some 0] /\
+  map (own4_verdict 5) [0;1;2] = [Some 0; Some 0; Some 0] /\
+  map (own4_verdict 7) [0;1] = [Some 0; Some 0] /\
+  map (own4_verdict 9) [0;1;2] = [Some 0; Some 0; Some 0].
+Proof. vm_compute. repeat split. Qed.
